@@ -148,6 +148,9 @@ func renamePtKey(in any, to, from string) error {
 		return fmt.Errorf("key(from) %s not found", from)
 	}
 
+	// an existing destination key (tag or field) is replaced
+	pt.Delete(to)
+
 	switch v.PtFlag { //nolint:exhaustive
 	case input.PtField:
 		if v, ok := pt.Fields[from]; ok {
@@ -160,6 +163,10 @@ func renamePtKey(in any, to, from string) error {
 		}
 		delete(pt.Tags, from)
 	}
+
+	// the index entry moves with the value
+	pt.Meta[to] = v
+	delete(pt.Meta, from)
 	return nil
 }
 
